@@ -75,6 +75,25 @@ type Holder struct {
 	B   []byte
 }
 
+// rowA / rowB: two different struct types that print the same type name ("val.row") but lay their fields out
+// differently (function-local types of the same name).
+func rowA(qty, price int, note string) interface{} {
+	type row struct {
+		Qty   int
+		Price int
+		Note  string
+	}
+	return row{qty, price, note}
+}
+
+func rowB(qty, price int) interface{} {
+	type row struct {
+		Price int
+		Qty   int
+	}
+	return row{Price: price, Qty: qty}
+}
+
 func Nil() V         { return V{K: "nil"} }
 func Bool(b bool) V  { return V{K: "bool", B: b} }
 func Str(s string) V { return V{K: "str", S: s} }
@@ -256,6 +275,15 @@ func Build(v V, env *Env) interface{} {
 	case "pstruct":
 		s := buildStruct(v, env)
 		return &s
+	case "rowA":
+		q, _ := v.Get("Qty")
+		pr, _ := v.Get("Price")
+		n, _ := v.Get("Note")
+		return rowA(int(q.I), int(pr.I), n.S)
+	case "rowB":
+		q, _ := v.Get("Qty")
+		pr, _ := v.Get("Price")
+		return rowB(int(q.I), int(pr.I))
 	case "estruct":
 		var o Outer
 		for _, e := range v.M {
